@@ -41,6 +41,59 @@ fn main() {{
     )
 }
 
+/// a length of 2^19 / 2^20: a static (no stack copy), looked at in four places without a loop -- the
+/// constant default must stay within the const evaluator's step budget for every length
+fn big_program(n: usize) -> String {
+    format!(
+        r#"#![allow(warnings)]
+use const_default::ConstDefault;
+use generic_array::typenum::*;
+use generic_array::GenericArray;
+pub struct B1(u8);
+impl ConstDefault for B1 {{ const DEFAULT: B1 = B1(0x5A); }}
+static S: GenericArray<B1, U{n}> = GenericArray::const_default();
+static D: GenericArray<B1, U{n}> = <GenericArray<B1, U{n}> as ConstDefault>::DEFAULT;
+const OK: bool = S.as_slice().len() == {n} && S.as_slice()[0].0 == 0x5A && S.as_slice()[{h}].0 == 0x5A && S.as_slice()[{l}].0 == 0x5A;
+fn main() {{
+    let s = S.as_slice(); let d = D.as_slice();
+    println!("A {{}} {{}} {{}} {{}} {{}}", s.len(), s[0].0, s[{h}].0, s[{l}].0, OK as u8);
+    println!("D {{}} {{}} {{}} {{}}", d.len(), d[0].0, d[{h}].0, d[{l}].0);
+}}
+"#,
+        n = n,
+        h = n / 2,
+        l = n - 1
+    )
+}
+
+fn big(p: &Probe, thorough: bool) {
+    for n in if thorough { vec![65536usize, 524288, 1048576] } else { vec![524288usize, 1048576] } {
+        let d = digits(n);
+        let mut case = vec![4, 6, d.len() as i128];
+        case.extend(&d);
+        emit_case(&case);
+        dist("big");
+        match p.compile_and_run_with(&format!("c19big_{}", n), &big_program(n), &["const_default"]) {
+            Ok(out) => {
+                let a: Vec<i128> = out.lines().find(|l| l.starts_with("A ")).unwrap_or("A").split_whitespace().skip(1).filter_map(|x| x.parse().ok()).collect();
+                let dd: Vec<i128> = out.lines().find(|l| l.starts_with("D ")).unwrap_or("D").split_whitespace().skip(1).filter_map(|x| x.parse().ok()).collect();
+                emit_obs(&a);
+                if a != vec![n as i128, 90, 90, 90, 1] {
+                    emit_oracle(&format!("static of {} elements from const_default(): len / first / middle / last / const comparison = {:?}", n, a));
+                }
+                if dd != vec![n as i128, 90, 90, 90] {
+                    emit_oracle(&format!("static of {} elements from DEFAULT: len / first / middle / last = {:?}", n, dd));
+                }
+            }
+            Err(e) => {
+                emit_obs(&[-1]);
+                emit_oracle(&format!("a static GenericArray<T, U{}> initialised with const_default() / DEFAULT is rejected by rustc: {}", n, e.chars().take(400).collect::<String>()));
+            }
+        }
+    }
+    flush_dist();
+}
+
 fn digits(mut n: usize) -> Vec<i128> {
     let mut d = vec![];
     while n > 0 {
@@ -52,13 +105,21 @@ fn digits(mut n: usize) -> Vec<i128> {
 
 fn main() {
     let a = args();
-    let lens: Vec<usize> = if a.tier == "thorough" {
+    let lens: Vec<usize> = if let Some(c) = &a.replay {
+        // the length of the replayed case: [4, ty, nd, digits..]
+        let nd = c[2] as usize;
+        vec![c[3..3 + nd].iter().enumerate().map(|(i, d)| (*d as usize) << i).sum()]
+    } else if a.tier == "thorough" {
         (0..=40).chain([63, 64, 65, 100, 127, 128, 255, 256, 1000, 1023, 1024]).collect()
     } else {
         vec![0, 1, 2, 3, 4, 5, 6, 7, 8, 10, 15, 16, 33, 64, 1000, 1024]
     };
     let p = Probe::new("c19p");
     note(&format!("rlib {}", p.rlib.display()));
+    if a.extra.iter().any(|x| x == "--big") {
+        big(&p, a.tier == "thorough");
+        return;
+    }
     let results: Mutex<Vec<Option<Result<String, String>>>> = Mutex::new(vec![None; lens.len()]);
     let next = AtomicUsize::new(0);
     std::thread::scope(|sc| {
